@@ -102,8 +102,10 @@ def task_init_group(pr, repo):
                 at = record('at', A, chain_id=chain, res_num=num, icode=ic, cysteine_bridge=bridge)
                 # what Group.setup leaves: titratable <=> model pKa known and not disulfide-bridged (C01-SU)
                 t0 = And(has_pka, Not(bridge))
+                # the group may be one that is "discarded due to coupling" (it stays titratable and counted; only its table rows go)
                 g = record('g', G, atom=at, residue_type=rtype, titratable=False, exclude_cys_from_results=False, parameters=None,
-                           pka_value=R('pka'), model_pka_set=has_pka)
+                           pka_value=R('pka'), model_pka_set=has_pka,
+                           coupled_titrating_group=record('partner', G, label='N+    1 A') if lst in ('hit', 'none') else None)
 
                 def setup(ex):
                     g.attrs['titratable'] = t0
